@@ -2,6 +2,7 @@ import E3fpVerif.DriverFprint
 import E3fpVerif.DriverDb
 import E3fpVerif.DriverMetrics
 import E3fpVerif.DriverFprinter
+import E3fpVerif.DriverConfig
 open Lean E3fpVerif
 
 structure St where
@@ -16,6 +17,7 @@ def dispatch (st : St) (j : Json) : St × Json :=
       return ({ st with dbs := s }, r)
     else if op.startsWith "met." then return (st, ← metricsOp op j)
     else if op.startsWith "fpr." || op.startsWith "fpo." then return (st, ← fprinterOp op j)
+    else if op.startsWith "cfg." then return (st, ← configOp op j)
     else .error s!"unknown op {op}" : Except String (St × Json)) with
   | .ok r => r
   | .error e => (st, Json.mkObj [("driver_error", e)])
